@@ -1206,6 +1206,9 @@ func (fr *Frame) writeSet(h *ssa.BasicBlock, st *State) (map[string]bool, map[*s
 			if returnsOnlyLogger(cc.Signature()) {
 				return
 			}
+			if mn := cc.Method.Name(); (mn == "Error" || mn == "String") && cc.Signature().Params().Len() == 0 {
+				return
+			}
 			impls := x.eng.implementers(it)
 			if impls == nil {
 				all = true
